@@ -83,32 +83,39 @@ def kernPair (p : Array Pos) (i j : Nat) (kern : Int) (horizontal crossStream : 
         | .error e => .error e
         | .ok pj => .ok (put p j { pj with ya := pj.ya + kern2, yo := pj.yo + kern2 }, false)
 
-/-- src: kerning.rs::machine_kern — the `while i < len` loop; `fuel` ≥ `len - i` (every iteration either
-    increments `i` or jumps to `j > i`). Second component: HAS_GPOS_ATTACHMENT was set. -/
+/-- src: kerning.rs::machine_kern — one iteration of the `while i < len` loop; `k` = the rest of the loop
+    (called with the next `i`). Last component: HAS_GPOS_ATTACHMENT was set. -/
+def kernBody (infos : Array KInfo) (len kernMask : Nat) (horizontal crossStream : Bool)
+    (kernOf : Nat → Nat → Int) (k : Nat → Array Pos → Bool → M (Array Pos × Bool))
+    (i : Nat) (p : Array Pos) (fl : Bool) : M (Array Pos × Bool) :=
+  if ¬ (i < len) then .ok (p, fl)
+  else
+    match geti infos i with
+    | .error e => .error e
+    | .ok gi =>
+      if gi.mask &&& kernMask = 0 then k (i + 1) p fl
+      else
+        match iterNext infos kernMask i (len - 1 - i) with
+        | .error e => .error e
+        | .ok none => k (i + 1) p fl
+        | .ok (some j) =>
+          match geti infos j with
+          | .error e => .error e
+          | .ok gj =>
+            let kern := kernOf gi.gid gj.gid
+            if kern ≠ 0 then
+              match kernPair p i j kern horizontal crossStream with
+              | .error e => .error e
+              | .ok (p', f) => k j p' (fl || f)
+            else k j p fl
+
+/-- src: kerning.rs::machine_kern — the `while i < len` loop; `fuel` > `len - i` is enough because every
+    iteration either increments `i` or jumps to `j > i` (`Lemmas: machineKernLoop_fuel`). -/
 def machineKernLoop (infos : Array KInfo) (len kernMask : Nat) (horizontal crossStream : Bool)
     (kernOf : Nat → Nat → Int) : Nat → Nat → Array Pos → Bool → M (Array Pos × Bool)
-  | 0, _, p, fl => .ok (p, fl)
-  | fuel + 1, i, p, fl =>
-    if ¬ (i < len) then .ok (p, fl)
-    else
-      match geti infos i with
-      | .error e => .error e
-      | .ok gi =>
-        if gi.mask &&& kernMask = 0 then machineKernLoop infos len kernMask horizontal crossStream kernOf fuel (i + 1) p fl
-        else
-          match iterNext infos kernMask i (len - 1 - i) with
-          | .error e => .error e
-          | .ok none => machineKernLoop infos len kernMask horizontal crossStream kernOf fuel (i + 1) p fl
-          | .ok (some j) =>
-            match geti infos j with
-            | .error e => .error e
-            | .ok gj =>
-              let kern := kernOf gi.gid gj.gid
-              if kern ≠ 0 then
-                match kernPair p i j kern horizontal crossStream with
-                | .error e => .error e
-                | .ok (p', f) => machineKernLoop infos len kernMask horizontal crossStream kernOf fuel j p' (fl || f)
-              else machineKernLoop infos len kernMask horizontal crossStream kernOf fuel j p fl
+  | 0 => fun _ p fl => .ok (p, fl)
+  | fuel + 1 => kernBody infos len kernMask horizontal crossStream kernOf
+      (machineKernLoop infos len kernMask horizontal crossStream kernOf fuel)
 
 /-- src: kerning.rs::machine_kern -/
 def machineKern (infos : Array KInfo) (p : Array Pos) (len kernMask : Nat) (d : Dir) (crossStream : Bool)
